@@ -24,6 +24,7 @@ type Target struct {
 	Outs      []string          `json:"outs,omitempty"`
 	DirOut    string            `json:"dir_out,omitempty"`    // a directory output (listed in outs)
 	ExtraDir  bool              `json:"extra_dir,omitempty"`  // uses output_dirs to emit one more file
+	DirStable bool              `json:"dir_stable,omitempty"` // the directory output has fixed entry names: only file contents follow the inputs
 	PostBuild bool              `json:"post_build,omitempty"` // a post-build function adds one more output, named by what the command printed
 	Op        string            `json:"op,omitempty"`
 	Salt      string            `json:"salt,omitempty"`
@@ -276,8 +277,12 @@ func (r *Repo) Command(t *Target) string {
 	}
 	if t.DirOut != "" {
 		d := t.DirOut
+		nexpr := "n=`body | cksum | cut -c1-2`"
+		if t.DirStable {
+			nexpr = "n=fixed"
+		}
 		c = append(c, fmt.Sprintf(`mkdir -p "%s/sub"`, d),
-			fmt.Sprintf("n=`body | cksum | cut -c1-2`"),
+			nexpr,
 			fmt.Sprintf(`echo "%s" > "%s/f_$n"`, t.Salt, d),
 			fmt.Sprintf(`body > "%s/sub/data"`, d))
 		if t.Symlink {
@@ -664,6 +669,7 @@ func Generate(rng *rand.Rand, o GenOpts) *Repo {
 				t.DirOut = fmt.Sprintf("dir%d", i)
 				t.Outs = append(t.Outs, t.DirOut)
 				t.Symlink = rng.Intn(2) == 0
+				t.DirStable = rng.Intn(2) == 0
 			}
 			if o.DirOuts && rng.Intn(6) == 0 {
 				t.ExtraDir = true
